@@ -206,6 +206,8 @@ class PersImage(TransformerMixin):
         """Convert a diagram to a landscape
         (b,d) -> (b, d-b)
         """
+        # on a copy: the caller's diagram is left as it is
+        diagram = np.array(diagram)
         diagram[:, 1] -= diagram[:, 0]
 
         return diagram
